@@ -198,6 +198,83 @@ theorem fork_depth_le_one (maxDepth : Int) (sms : List StartMethod) (hf : ∀ sm
         simp [hsm']
     · simp
 
+/-! ## the depth is read when a worker is spawned, not when the executor is constructed -/
+
+/-- every worker spawned by one event is given the depth global's value at that event, plus one -/
+theorem life_step_shipped (s : Life) (op : LifeOp) :
+    (∀ x ∈ (lifeStep s op).2, x = s.cur + 1) ∧
+      (lifeStep s op).1.cur = (match op with | .setDepth d => d | _ => s.cur) := by
+  cases op with
+  | setDepth d => simp [lifeStep]
+  | ensure =>
+    simp only [lifeStep, adjust, shippedDepth]
+    exact ⟨fun x hx => (List.mem_replicate.mp hx).2, trivial⟩
+  | resize m =>
+    simp only [lifeStep, adjust, shippedDepth]
+    split
+    · simp
+    · split
+      · exact ⟨fun x hx => (List.mem_replicate.mp hx).2, rfl⟩
+      · simp
+  | exit k =>
+    simp only [lifeStep, adjust, shippedDepth]
+    split
+    · exact ⟨fun x hx => (List.mem_replicate.mp hx).2, rfl⟩
+    · simp
+
+/-- **every spawn path, any history**: whatever the value of the depth global when the executor
+    was constructed, and however it changed afterwards, every worker spawned by event `i` (first
+    submit, resize, respawn after an idle time-out) is given exactly the creating process's depth
+    *at that event* plus one. -/
+theorem life_shipped_eq (s : Life) (ops : List LifeOp) (i : Nat) (h : i < (lifeRun s ops).length) :
+    ∀ x ∈ (lifeRun s ops)[i], x = curAt s.cur ops i + 1 := by
+  induction ops generalizing s i with
+  | nil => simp [lifeRun] at h
+  | cons op rest ih =>
+    cases i with
+    | zero =>
+      simp only [lifeRun, List.getElem_cons_zero]
+      have := (life_step_shipped s op).1
+      cases op <;> simpa [curAt] using this
+    | succ i =>
+      simp only [lifeRun, List.getElem_cons_succ]
+      have hc := (life_step_shipped s op).2
+      have h' : i < (lifeRun (lifeStep s op).1 rest).length := by simpa [lifeRun] using h
+      have := ih (lifeStep s op).1 i h'
+      cases op <;> simp only [curAt] <;> simpa [hc] using this
+
+/-- the depth global's value at construction has no influence on workers spawned after the
+    process has learnt its depth: only the guard of the constructor looks at it -/
+theorem life_forgets_construction_depth (d0 d0' w d : Nat) (ops : List LifeOp) :
+    lifeRun { cur := d0, maxWorkers := w, alive := 0, started := false } (.setDepth d :: ops) =
+      lifeRun { cur := d0', maxWorkers := w, alive := 0, started := false } (.setDepth d :: ops) := by
+  simp [lifeRun, lifeStep]
+
+/-- a refused construction ships nothing; an accepted one is `lifeRun` from the constructor's state -/
+theorem life_ok_iff (sm : StartMethod) (maxDepth : Int) (d0 w : Nat) (ops : List LifeOp) :
+    (∃ r, life sm maxDepth d0 w ops = .ok r) ↔ (sm ≠ .fork ∨ d0 = 0) ∧ (maxDepth ≤ 0 ∨ (d0 : Int) < maxDepth) := by
+  rw [← create_ok_iff]
+  unfold life
+  cases h : checkMaxDepth sm maxDepth d0 <;> simp
+
+/-- tasks of a worker see the shipped depth … -/
+theorem tasks_see_shipped_depth (fresh arg : Nat) : (workerStartup fresh arg).2 = arg := rfl
+
+/-- **the initializer runs at the worker's depth** — "the depth a worker sees is exactly one more than that of the
+    process that created its executor" holds at every moment user code runs in the worker, the initializer included
+    (false of the pinned tree, where `_process_worker` ran the initializer before assigning `_CURRENT_DEPTH`: defect
+    D28, repaired) -/
+theorem initializer_sees_worker_depth (fresh arg : Nat) : (workerStartup fresh arg).1 = arg := rfl
+
+/-- … hence an executor created inside an initializer is subject to the same bound as one created inside a task:
+    at the limit it is refused. -/
+theorem initializer_nesting_bounded (fresh d : Nat) (maxDepth : Int) (hm : 0 < maxDepth) (hd : maxDepth ≤ ((d + 1 : Nat) : Int)) :
+    ∃ why, createExecutor .loky maxDepth (workerStartup fresh (d + 1)).1 = .error why := by
+  simp only [workerStartup, workerDepth]
+  unfold createExecutor checkMaxDepth
+  have hc : 0 < maxDepth ∧ maxDepth < (d : Int) + 1 + 1 := ⟨hm, by omega⟩
+  simp [hc]
+
 /-! ## non-vacuity -/
 
 example : checkMaxDepth .loky 10 9 = .ok := by decide
@@ -215,5 +292,11 @@ example : ∃ (M : Int) (cur : Nat), 1 ≤ M ∧ (cur : Int) ≤ M := ⟨10, 3, 
 example : ∃ sms : List StartMethod, sms ≠ [] ∧ ∀ sm ∈ sms, sm = .fork := ⟨[.fork], by decide, by decide⟩
 example : ∃ (M : Int) (sms : List StartMethod), M ≤ 0 ∧ sms ≠ [] ∧ (∀ sm ∈ sms, sm ≠ .fork) :=
   ⟨0, [.loky], by decide, by decide, by decide⟩
+example : lifeRun { cur := 0, maxWorkers := 2, alive := 0, started := false }
+    [.setDepth 1, .ensure, .resize 3, .exit 2, .setDepth 5, .exit 1] = [[], [2, 2], [2], [2, 2], [], [6]] := by decide
+example : life .loky 2 0 1 [.setDepth 1, .ensure] = .ok [[], [2]] := by rfl
+example : life .loky 2 2 1 [.ensure] = .error .maxDepth := by rfl
+example : ∃ (s : Life) (ops : List LifeOp) (i : Nat) (h : i < (lifeRun s ops).length), (lifeRun s ops)[i] ≠ [] :=
+  ⟨{ cur := 3, maxWorkers := 1, alive := 0, started := false }, [.ensure], 0, by decide, by decide⟩
 
 end LokyModel.Depth
